@@ -48,11 +48,21 @@ def measure_callbacks_all_run(async_):
         ran.append(2)
     res.add_callback(failing)
     res.add_callback(plain)
-    raised = False
-    try:
-        res(False, 0)
-    except RuntimeError:
-        raised = True
+    box = {}
+
+    def body():
+        try:
+            res(False, 0)
+            box["raised"] = False
+        except RuntimeError:
+            box["raised"] = True
+    import threading
+    th = threading.Thread(target=body, daemon=True)      # (a __call__ that never comes back must not hang every check)
+    th.start()
+    th.join(10)
+    if th.is_alive():
+        raise Inexpressible("AsyncResult.__call__ with a raising callback does not return")
+    raised = box.get("raised")
     obs = (ran, len(res._callbacks), raised, bool(res._is_ready))
     if obs == ([1, 2], 0, True, True):
         return True
